@@ -192,12 +192,17 @@ def run_history(rng, cl, pool, n_ops, preset=None):
                 plan.append(("tower",))
             elif c < 0.40:
                 plan.append(("q", ("subclass", rng.choice(cl.universe), rng.choice(cl.universe))))
+                queries.append(plan[-1][1])
             else:
                 a, b = rng.choice(pool), rng.choice(pool)
                 if queries and rng.random() < 0.45:
                     plan.append(("q", rng.choice(queries)))
                 else:
-                    plan.append(("q", (rng.choice(["sub", "maybe", "dist"]), a, b)))
+                    plan.append(("q", (rng.choice(["sub", "maybe", "dist", "dist"]), a, b)))
+                    queries.append(plan[-1][1])
+    if preset is None and rng is not None:
+        plan = add_shortcuts(rng, cl, plan)
+    queries = []
     for step in plan:
         if step[0] == "q":
             q = step[1]
@@ -225,7 +230,102 @@ def run_history(rng, cl, pool, n_ops, preset=None):
             what = (f"{name}({q[1] if q[0] == 'subclass' else cm.t_str(q[1])}, {q[2] if q[0] == 'subclass' else cm.t_str(q[2])}) "
                     f"answers {a} from its cache after the inheritance graph changed; recomputed on the final graph: {fresh}")
             fails.append((f"cache-stale:{name}", what, q))
+    # ... and vs a fresh TypeSystem that received the final graph before it was asked anything
+    names, edges, _ = cl.graph_for(history_classes(cl, distinct))
+    fresh_ts = cm.Cluster.bare_from(cl, names, edges)
+    for q, a in zip(distinct, cached):
+        fresh = ask(fresh_ts, q)
+        if fresh != a and not any(f[2] == q for f in fails):
+            name = {"sub": "is_subtype", "maybe": "is_maybe_subtype", "dist": "subtype_distance", "subclass": "is_subclass"}[q[0]]
+            what = (f"{name}({q[1] if q[0] == 'subclass' else cm.t_str(q[1])}, {q[2] if q[0] == 'subclass' else cm.t_str(q[2])}) "
+                    f"answers {a} from its cache after the inheritance graph changed; a fresh TypeSystem with the final graph: {fresh}")
+            fails.append((f"cache-stale:{name}", what, q))
     return ops, answers, fails, plan
+
+
+def history_classes(cl, queries):
+    used = set(cl.universe)
+    for q in queries:
+        if q[0] == "subclass":
+            used.update([q[1], q[2]])
+        else:
+            cm.t_classes(q[1], used)
+            cm.t_classes(q[2], used)
+    return used
+
+
+def add_shortcuts(rng, cl, plan):
+    """Insert redundant edges (a -> c where a longer path a ~> c exists already: a class listing a base and
+    an ancestor of that base, diamond shortcuts) with distance queries on the end points before and after."""
+    import networkx as nx
+
+    g = cl.ts._graph  # noqa: SLF001
+    names = [n for n in cl.universe if cl.hg_of(n) is None]
+    cands = []
+    for a in names:
+        for c in cl.class_names:
+            if a != c and cl.info[a] in g and cl.info[c] in g and not g.has_edge(cl.info[a], cl.info[c]):
+                try:
+                    if nx.shortest_path_length(g, cl.info[a], cl.info[c]) >= 2:
+                        cands.append((a, c))
+                except nx.NetworkXNoPath:
+                    pass
+    rng.shuffle(cands)
+    plan = list(plan)
+    for a, c in cands[:rng.choice([1, 2, 3])]:
+        ta, tc, to = cm.t_inst(a), cm.t_inst(c), cm.t_inst("object")
+        before = [("q", ("dist", ta, tc)), ("q", ("dist", to, tc)), ("q", ("dist", cm.t_union([ta, cm.NONE_T]), tc)),
+                  ("q", ("sub", tc, ta)), ("q", ("subclass", c, a))]
+        rng.shuffle(before)
+        block = before[:rng.choice([2, 3, 5])] + [("edge", a, c)]
+        block += [st for st in before if rng.random() < 0.7]
+        pos = rng.randrange(len(plan) + 1)
+        plan[pos:pos] = block
+    return plan
+
+
+def rebuild_plan(rng, cl):
+    """The hierarchy of the cluster fed edge by edge, in a random order, into a fresh TypeSystem, with extra
+    shortcut edges and with queries between the graph updates."""
+    import networkx as nx
+
+    names, edges, _ = cl.graph_for(set(cl.universe))
+    g = nx.DiGraph(edges)
+    extra = []
+    for a in names:
+        for c in cl.class_names:
+            if a in g and c in g and a != c and not g.has_edge(a, c) and nx.has_path(g, a, c):
+                extra.append((a, c))
+    rng.shuffle(extra)
+    todo = list(edges) + extra[:rng.choice([0, 1, 2, 4])]
+    mode = rng.choice(["shuffle", "analysis", "reverse"])
+    if mode == "shuffle":
+        rng.shuffle(todo)
+    elif mode == "reverse":
+        todo.reverse()
+    plain = [n for n in names if cl.hg_of(n) is None and not n.startswith("@")]
+    asked = []
+    plan = []
+    for a, c in todo:
+        plan.append(("edge", a, c))
+        for _ in range(rng.choice([0, 1, 2, 3])):
+            if asked and rng.random() < 0.5:
+                plan.append(("q", rng.choice(asked)))
+                continue
+            x = rng.choice([a, c, "object", rng.choice(plain)])
+            y = rng.choice([a, c, rng.choice(cl.class_names or plain), rng.choice(plain)])
+            if cl.hg_of(x) is not None or cl.hg_of(y) is not None or x.startswith("@") or y.startswith("@"):
+                continue
+            kind = rng.choice(["dist", "dist", "dist", "sub", "maybe", "subclass"])
+            q = ("subclass", y, x) if kind == "subclass" else (kind, cm.t_inst(x), cm.t_inst(y))
+            if kind == "dist" and rng.random() < 0.3:
+                q = ("dist", cm.t_union([cm.t_inst(x), cm.NONE_T]), cm.t_tuple([cm.t_inst(y)])) if rng.random() < 0.3 else \
+                    ("dist", cm.t_inst("list", [cm.t_inst(x)]), cm.t_inst("list", [cm.t_inst(y)]))
+            asked.append(q)
+            plan.append(("q", q))
+    for q in asked[:12]:
+        plan.append(("q", q))
+    return names, plan
 
 
 def shrink_history(cl_factory, plan, sig):
@@ -270,6 +370,199 @@ def plan_from_json(js):
         else:
             out.append(tuple(st))
     return out
+
+
+# ------------------------------------------------------------------------------------------------
+# histories on the real providers of real clusters (one cluster per generator selection algorithm)
+def make_cluster(scratch, modname, src, class_names, kind):
+    import pynguin.configuration as config
+
+    sel = config.Selection.RANK_SELECTION if kind == "heuristic" else config.Selection.RANDOM_SELECTION
+    old = config.configuration.generator_selection.generator_selection_algorithm
+    config.configuration.generator_selection.generator_selection_algorithm = sel
+    try:
+        return cm.Cluster(scratch, modname, src, class_names)
+    finally:
+        config.configuration.generator_selection.generator_selection_algorithm = old
+
+
+class PHist:
+    """The real provider of a real cluster, observed through generator names."""
+
+    def __init__(self, kind, cl):
+        from pynguin.analyses.generator import GeneratorProvider, RandomGeneratorProvider
+
+        self.kind, self.cl = kind, cl
+        self.prov = cl.cluster.generator_provider
+        assert type(self.prov) is (GeneratorProvider if kind == "heuristic" else RandomGeneratorProvider), type(self.prov)
+        self.objs, self.name_of_obj, seen = {}, {}, {}
+        for _, gens in self.prov.get_all().items():
+            for g in gens:
+                if id(g) in self.name_of_obj:
+                    continue
+                base = str(g).replace(cl.modname + ".", "M.")
+                k = seen.get(base, 0)
+                seen[base] = k + 1
+                name = base if k == 0 else f"{base}#{k}"
+                self.name_of_obj[id(g)] = name
+                self.objs[name] = g
+        self.ids = {n: i for i, n in enumerate(sorted(self.objs))}
+
+    def gid(self, g):
+        return self.ids[self.name_of_obj[id(g)]]
+
+    def table(self):
+        out = []
+        for real_t, gens in self.prov.get_all().items():
+            t = self.cl.from_real(real_t)
+            if t is None or not self.cl.wf(t) or any(id(g) not in self.name_of_obj for g in gens):
+                return None
+            out.append((t, sorted({self.gid(g) for g in gens})))
+        return out
+
+    def offered(self, typ):
+        return sorted({self.gid(g.generator) for g in self.prov._get_generators_for(self.cl.to_real(typ))})  # noqa: SLF001
+
+    def offered_fresh(self, typ):
+        """A provider of the same class freshly built on the current table and type system (not memoised)."""
+        from pynguin.ga.operators.selection import RandomSelection
+
+        fresh = type(self.prov)(self.cl.ts, RandomSelection())
+        for real_t, gens in self.prov.get_all().items():
+            for g in gens:
+                fresh.add_for_type(real_t, g)
+        res = type(self.prov)._get_generators_for.__wrapped__(fresh, self.cl.to_real(typ))  # noqa: SLF001
+        return sorted({self.gid(g.generator) for g in res})
+
+    def updatable(self):
+        return sorted(n for n, g in self.objs.items()
+                      if hasattr(g, "inferred_signature") and (g.is_function() or g.is_method()))
+
+
+def gen_pplan(rng, ph: PHist, n_ops):
+    cl = ph.cl
+    pool = []
+    for acc in cl.cluster.accessible_objects_under_test:
+        sig = getattr(acc, "inferred_signature", None)
+        if sig is not None:
+            for p in sig.original_parameters.values():
+                t = cl.from_real(p)
+                if t is not None and cl.wf(t):
+                    pool.append(t)
+    keys = [t for t, _ in (ph.table() or [])]
+    pool += keys + [cm.mutate_type(rng, cl, k) for k in keys[:8]] + [cm.t_inst(n) for n in cl.class_names]
+    pool += [cm.t_inst("object"), cm.ANY_T]
+    pool = [t for t in dict.fromkeys(pool) if cl.wf(t)]
+    upd = ph.updatable()
+    classes = [n for n in cl.class_names if cl.raw[n].__class__.__name__ != "EnumType"]
+    newtypes = [cm.t_inst(n) for n in cl.class_names] + [cm.t_inst("int"), cm.t_inst("str"), cm.NONE_T,
+                                                         cm.t_inst("list", [cm.t_inst("int")]), cm.t_tuple([cm.t_inst("int")])]
+    plan, asked = [], []
+    for _ in range(n_ops):
+        c = rng.random()
+        if c < 0.62 or not asked:
+            t = rng.choice(asked) if asked and rng.random() < 0.5 else rng.choice(pool)
+            asked.append(t)
+            plan.append(("q", t))
+        elif c < 0.82 and upd:
+            plan.append(("update", rng.choice(upd), rng.choice(newtypes)))
+            for t in rng.sample(asked, min(len(asked), 3)):
+                plan.append(("q", t))
+        elif c < 0.88:
+            plan.append(("clear",))
+        elif len(classes) >= 2:
+            p, k = rng.sample(classes, 2)
+            plan.append(("edge", p, k))
+            plan.append(("q", rng.choice(asked)))
+    for t in list(dict.fromkeys(asked))[:10]:
+        plan.append(("q", t))
+    return plan
+
+
+def run_phistory(ph: PHist, plan):
+    """Returns None when the table leaves the model, else (initial table, ops, answers, fails)."""
+    cl = ph.cl
+    tb0 = tb = ph.table()
+    if tb is None:
+        return None
+    ops, answers, fails = [], [], []
+    cached_at, new_edges = {}, []
+    for i, st in enumerate(plan):
+        if st[0] == "q":
+            typ = st[1]
+            ans, fresh = ph.offered(typ), ph.offered_fresh(typ)
+            ops.append(("PQuery", typ))
+            answers.append(ans)
+            cached_at.setdefault(typ, i)
+            if ans != fresh:
+                excused = any(e > cached_at[typ] for e in new_edges)
+                cause = "graph-update" if excused else "after-invalidation"
+                names = {v: k for k, v in ph.ids.items()}
+                diff = sorted(set(ans) ^ set(fresh))
+                fails.append((f"provider-cache-stale:{cause}:{ph.kind}",
+                              f"{type(ph.prov).__name__}._get_generators_for({cm.t_str(typ)}) answers from its cache and differs from a "
+                              f"freshly built provider on the final state in {[names[d] for d in diff]} "
+                              + ("(the inheritance graph changed since the answer was memoised; add_subclass_edge cannot reach the provider cache)"
+                                 if excused else "(although clear_generator_cache ran / nothing changed since it was memoised)"), i))
+        elif st[0] == "update":
+            acc = ph.objs.get(st[1])
+            if acc is None or not cl.wf(st[2]):
+                continue
+            cl.cluster.update_return_type(acc, cl.to_real(st[2]))
+            tb2 = ph.table()
+            if tb2 is None:
+                break
+            if tb2 != tb:
+                tb = tb2
+                ops.append(("PTable", tb2, True))
+                answers.append(None)
+                cached_at.clear()
+        elif st[0] == "clear":
+            ph.prov.clear_generator_cache()
+            ops.append(("PClear",))
+            answers.append(None)
+            cached_at.clear()
+        elif st[0] == "edge":
+            a, b = cl.info[st[1]], cl.info[st[2]]
+            if not cl.ts._graph.has_edge(a, b):  # noqa: SLF001
+                new_edges.append(i)
+            cl.ts.add_subclass_edge(super_class=a, sub_class=b)
+            ops.append(("PEdge", st[1], st[2]))
+            answers.append(None)
+    return tb0, ops, answers, fails
+
+
+def pplan_to_json(plan):
+    return [[st[0]] + [cm.t_to_json(x) if isinstance(x, tuple) else x for x in st[1:]] for st in plan]
+
+
+def pplan_from_json(js):
+    return [tuple([st[0]] + [cm.t_from_json(x) if isinstance(x, list) else x for x in st[1:]]) for st in js]
+
+
+def c_table(num, tb):
+    return clist(cpair(num.ty(t), clist(cN(i) for i in ids)) for t, ids in tb)
+
+
+def c_phcase(ph: PHist, names, edges, hgs, tb0, ops, answers):
+    cl = ph.cl
+    num = cm.Numbering(names)
+    prims = [n for n in names if cl.to_real(cm.t_inst(n, [cm.ANY_T] * (cl.hg_of(n) or 0))).accept(_prim())]
+    ops_c = []
+    for o in ops:
+        if o[0] == "PQuery":
+            ops_c.append(f"C26.PQuery {num.ty(o[1])}")
+        elif o[0] == "PTable":
+            ops_c.append(f"C26.PTable {c_table(num, o[1])} {cbool(o[2])}")
+        elif o[0] == "PEdge":
+            ops_c.append(f"C26.PEdge {num.cls(o[1])} {num.cls(o[2])}")
+        else:
+            ops_c.append("C26.PClear")
+    ans_c = clist("None" if a is None else f"(Some {clist(cN(i) for i in a)})" for a in answers)
+    return ("C26.CPHistory {| C26.ph_kind := C26.%s; C26.ph_graph := %s; C26.ph_anyd := %s; C26.ph_prims := %s; "
+            "C26.ph_table := %s; C26.ph_ops := %s; C26.ph_answers := %s |}" % (
+                "PHeur" if ph.kind == "heuristic" else "PRand", num.graph(names, edges, hgs), cN(cm.any_distance()),
+                clist(num.cls(n) for n in prims), c_table(num, tb0), clist(ops_c), ans_c))
 
 
 # ------------------------------------------------------------------------------------------------
@@ -402,6 +695,77 @@ def work(arg):
             canon.append(("providers", tuple(edges), tuple(t for t, _, _ in reqs_c)))
             sample = {"module_classes": class_names, "generated_types": [cm.t_str(t) for t in keys[:10]],
                       "requests": [[cm.t_str(t), h, r] for t, h, r in reqs_c[:6]]}
+        # ---------------- the hierarchy fed edge by edge into a fresh TypeSystem, any order ---------
+        if cl.cluster is not None:
+            if entry is not None and "rebuild" in entry:
+                rnames, _, _ = cl.graph_for(set(cl.universe))
+                rplans = [plan_from_json(entry["rebuild"])]
+            else:
+                rplans = []
+                for _ in range(0 if entry is not None else 2):
+                    rnames, rp = rebuild_plan(rng, cl)
+                    rplans.append(rp)
+            for rp in rplans:
+                bare = cm.Cluster.bare_from(cl, rnames)
+                bnames, bedges, bhgs = bare.graph_for(set(rnames))
+                bnum = cm.Numbering(bnames)
+                ops, answers, hfails, _ = run_history(None, bare, None, 0, preset=rp)
+                for sig, what, q in hfails:
+                    if any(f["signature"] == sig for f in fails):
+                        count("oracle-repeat:" + sig)
+                        continue
+                    small = shrink_history(lambda: cm.Cluster.bare_from(cl, rnames), rp, sig)
+                    fails.append({"signature": sig, "what": what,
+                                  "replay": {"kind": "rebuild", "history": plan_to_json(small), "src": src, "classes": class_names}})
+                ops_c = []
+                for o in ops:
+                    if o[0] == "Query":
+                        ops_c.append(f"C26.Query {c_key(bnum, o[1])}")
+                        count("rebuild-op:query:" + o[1][0])
+                    else:
+                        ops_c.append(f"C26.AddEdge {bnum.cls(o[1])} {bnum.cls(o[2])}")
+                        count("rebuild-op:add-edge")
+                cases.append("C26.CHistory %s" % cpair(bnum.graph(bnames, bedges, bhgs), cN(cm.any_distance()), clist(ops_c),
+                                                      clist(c_answer(a) for a in answers)))
+                n_eval += sum(1 for a in answers if a is not None)
+                canon.append(("rebuild", tuple(repr(o) for o in ops)))
+        # ---------------- provider histories: real providers of real clusters, both kinds --------
+        if cl.cluster is not None and n_ops >= 0:
+            pplan = None
+            for kind in ("heuristic", "random"):
+                c2 = make_cluster(Path(scratch), f"c26p_{seed % 10**9}_{idx}_{kind[0]}", src, class_names, kind)
+                try:
+                    ph = PHist(kind, c2)
+                    if pplan is None:
+                        pplan = pplan_from_json(entry["phistory"]) if entry is not None and "phistory" in entry else \
+                            gen_pplan(rng, ph, 24 if n_ops else 0)
+                    used = set(c2.universe)
+                    for st in pplan:
+                        for x in st[1:]:
+                            if isinstance(x, tuple):
+                                cm.t_classes(x, used)
+                    for t, _ in (ph.table() or []):
+                        cm.t_classes(t, used)
+                    pnames, pedges, phgs = c2.graph_for(used)
+                    res = run_phistory(ph, pplan)
+                    if res is None:
+                        count("provider-history:table-outside-model")
+                        continue
+                    tb0, pops, pans, pfails = res
+                    for sig, what, step in pfails:
+                        if any(f["signature"] == sig for f in fails):
+                            count("oracle-repeat:" + sig)
+                            continue
+                        fails.append({"signature": sig, "what": what,
+                                      "replay": {"kind": "phistory", "provider": kind, "plan": pplan_to_json(pplan[:step + 1]),
+                                                 "src": src, "classes": class_names}})
+                    cases.append(c_phcase(ph, pnames, pedges, phgs, tb0, pops, pans))
+                    n_eval += sum(1 for a in pans if a is not None)
+                    for o in pops:
+                        count(f"provider-op:{kind}:{o[0]}")
+                    canon.append(("phistory", kind, tuple(repr(o) for o in pops)))
+                finally:
+                    c2.close()
         # ---------------- history: cached queries interleaved with graph updates ---------------
         pool = [cm.gen_type(rng, cl, 0, rng.choice([1, 2, 2, 3])) for _ in range(8)]
         pool += [cm.mutate_type(rng, cl, t) for t in pool[:6]]
@@ -533,6 +897,25 @@ def replay(ctx, path):
         print(json.dumps(d, indent=1)[:3000])
         return 0
     cl = cm.Cluster.bare() if rp["src"] is None else cm.Cluster(Path(ctx.mkscratch()), "c26_replay", rp["src"], rp["classes"])
+    if rp["kind"] == "rebuild":
+        names, _, _ = cl.graph_for(set(cl.universe))
+        bare = cm.Cluster.bare_from(cl, names)
+        ops, answers, fails, _ = run_history(None, bare, None, 0, preset=plan_from_json(rp["history"]))
+        for o, a in zip(ops, answers):
+            print(o, "->", a)
+        print("oracle:", [(f[0], f[1]) for f in fails])
+        return 0
+    if rp["kind"] == "phistory":
+        cl.close()
+        c2 = make_cluster(Path(ctx.mkscratch()), "c26_replay_p", rp["src"], rp["classes"], rp["provider"])
+        ph = PHist(rp["provider"], c2)
+        res = run_phistory(ph, pplan_from_json(rp["plan"]))
+        if res is not None:
+            names = {v: k for k, v in ph.ids.items()}
+            for o, a in zip(res[1], res[2]):
+                print(o[0], cm.t_str(o[1]) if o[0] == "PQuery" else o[1:], "->", None if a is None else [names[i] for i in a])
+            print("oracle:", [(f[0], f[1]) for f in res[3]])
+        return 0
     if rp["kind"] == "history":
         ops, answers, fails, _ = run_history(None, cl, None, 0, preset=plan_from_json(rp["history"]))
         for o, a in zip(ops, answers):
